@@ -144,3 +144,23 @@ TEXT["C08"] = {
          "Trusted: the loop skeleton mirrors miller_loop (tied by running both), translator for the steps.",
  "technique": "Lean 4 proof (induction over loop bits and pair lists; ring identities for ell/square/conjugate) + differential correspondence on list shapes",
 }
+TEXT["C01"] = {
+ "level": "Partial proof.  Lean 4 theorems about the pairing model (hand-written loop skeleton of miller_loop over the doubling/addition steps, ell, Fq12 operations and final_exponentiation REGENERATED from pairing.cpp/fq12.cpp on every run; tied to the real code exactly by the judge).  "
+          "(a) Kernel-evaluated closed facts (decide +kernel, no native code): the exported generators are the published ones; the implementation model on them returns the exported generator_pairing (pairing and pairing_product); the TEXTBOOK optimal-ate pairing of Spec/Pairing.lean "
+          "(affine chord-and-tangent loop, dense Fq12, literal exponent 3(q^12-1)/r - shares no formula with the implementation) returns the same constant; that constant has order exactly r (r proved prime).  "
+          "(b) For ALL inputs over the concrete field: a pair with an identity member (x, y arbitrary) gives 1, plain and prepared.  "
+          "(c) For ALL arguments over any field with the table relations (proved for the library's tables): final_exponentiation is multiplicative, and (Proofs/FinalExp.lean) equals the power 3(q^12-1)/r on every invertible argument once Frobenius = x^(q^k) is supplied for the concrete tower - the exponent is COMPUTED from the regenerated chain and compared with 3(q^12-1)/r by the kernel; outputs raised to r give 1.  "
+          "Correspondence: pairing, miller_loop, both steps, final_exponentiation, exp_by_x on generators, random subgroup points, non-normalised projective origins, identities; bilinearity e(aP,bQ) = e(P,Q)^(ab) with boundary scalars judged against the independent Spec.",
+ "note": "Named hypothesis H-bilinear: bilinearity/non-degeneracy of the textbook optimal-ate function (Vercauteren 2010) is not provable with the libraries present; it is sampled against the Spec.  The refinement 'implementation model = textbook pairing for all of G1 x G2' is proved at step level only as far as Proofs/MillerSteps.lean goes (see DESIGN.md 8); the rest is correspondence.  Trusted: loop skeleton (tied by running both), translator.",
+ "technique": "Lean 4 proof (kernel-evaluated closed facts; induction over the exponentiation chain; list induction) + differential correspondence against the textbook Spec",
+}
+TEXT["C07"] = {
+ "level": "Lean 4 theorems about the model of Fq12::exponentiate_gt (hand-written loop mirror over the GENERATED frobenius_map / conjugate / square_cyclotomic / multiply, tied to the real code exactly by the judge), for every commutative ring of coefficients and every constant table: "
+          "the interleaved 4-way square-and-multiply with its found_one shortcut returns prod_j t_j^(c_j mod 2^64) for EVERY digit vector (t_j = the Frobenius-image table the loop builds) whenever cyclotomic squaring is squaring on a multiplicatively closed set containing the table; "
+          "with the C06 theorems about PowersOfX::decompose (four digits < 2^64 recombining to k mod r) this gives exponentiate_gt a (decompose k) = a^k = a^(k mod r) for every k < 2^256, under hypotheses on a that are named and reduced as far as possible: a^r = 1, a*conj(a) = 1, frobenius_map a j = a^(q^j) (the congruence q = -|x| mod r is proved), Granger-Scott squaring = squaring on powers of a.  "
+          "Proofs/Cyclotomic.lean proves the last one for all elements satisfying an explicit coordinate predicate IsCyclotomic (closed under *, powers, conjugation and every Frobenius map; holds for every output of map_to_cyclotomic on invertible input; characterised as the weakest such hypothesis), and that inverse = conjugate there.  "
+          "The sampler PowersOfX::random: returned digits are < |x|, recombine to the returned y, y < r, digit vectors <-> [0,r) is a bijection, and the returned element is a^y.  "
+          "Correspondence: gt_exp / gt_ops / gt_rand / xrand on boundary exponents (0, 1, r-1, r, r+1, 2r, 2^256-1, top-limb ties with r, digit boundaries), byte streams forcing rejections, judged against a^k computed by the Spec.",
+ "note": "Partial in this sense: the hypotheses on a (membership in GT) are discharged for concrete elements only as far as Proofs/FqTower.lean goes; exponentiate_gt_nodiv has no Lean model (judged against a^k only); 'uniform' is the bijection statement, not a probability statement.  Trusted: loop mirror and sampler model (tied by running both against the real code).",
+ "technique": "Lean 4 proof (loop invariant over bit positions; digit arithmetic; polynomial identities for Granger-Scott squaring) + differential correspondence with boundary exponents",
+}
